@@ -12,6 +12,8 @@ def make_cases(tier, rng):
 
     def add(cfg, host):
         vs = rng.sample([0, 1, 2, 3, 7], rng.randint(1, 4))
+        # the config's history: used for an earlier launch already / a TLSConfig supplied by the caller
+        cfg = dict(cfg, relaunch=rng.random() < 0.4, presettls=rng.random() < 0.3)
         cases.append({"name": "e%d" % len(cases), "cfg": cfg, "host": host, "versions": vs, "legacy": rng.random() < 0.4})
     all_on = {v: True for v in VARS}
     all_off = {v: False for v in VARS}
